@@ -16,8 +16,23 @@ def main():
     a = ap.parse_args()
     pid = a.pid.upper()
     mod = importlib.import_module('harness.props.' + pid.lower())
+    replay_data = None
+    if a.replay:
+        # a replay re-runs the check with the seed and tier recorded in the replay file (all generators are
+        # seeded, so the recorded violation reproduces); property modules may use ck.replay_data for more
+        import json
+        try:
+            with open(a.replay) as f:
+                replay_data = json.load(f)
+            a.seed = int(replay_data.get('seed', a.seed))
+            a.tier = replay_data.get('tier', a.tier)
+        except (OSError, ValueError) as e:
+            print('cannot read replay file %s: %s' % (a.replay, e))
+    if a.replay:
+        os.environ['VERIF_REPLAY_FILE'] = os.path.abspath(a.replay)
     ck = Check(pid, a.tier, a.seed, level=getattr(mod, 'LEVEL', 'proof'))
     ck.replay_file = a.replay
+    ck.replay_data = replay_data
     try:
         mod.run(ck)
     except Exception:
